@@ -352,6 +352,12 @@ func (r *Raft) runCandidate() {
 		case preVote := <-prevoteCh:
 			// This a pre-vote case it should trigger a "real" election if the pre-vote is won.
 			r.mainThreadSaturation.working()
+			// While we were waiting, a heartbeat handled on the transport's
+			// fast path may have made us a follower of a new leader: its
+			// answers no longer entitle us to start an election.
+			if r.getState() != Candidate {
+				continue
+			}
 			r.logger.Debug("pre-vote received", "from", preVote.voterID, "term", preVote.Term, "tally", preVoteGrantedVotes)
 			// Check if the term is greater than ours, bail
 			if preVote.Term > term {
@@ -388,6 +394,10 @@ func (r *Raft) runCandidate() {
 			}
 		case vote := <-voteCh:
 			r.mainThreadSaturation.working()
+			// Likewise: votes of an election that is over must not be counted.
+			if r.getState() != Candidate {
+				continue
+			}
 			// Check if the term is greater than ours, bail
 			if vote.Term > r.getCurrentTerm() {
 				r.logger.Debug("newer term discovered, fallback to follower", "term", vote.Term)
